@@ -302,6 +302,21 @@ check("C07",
       "TLA+ spec (XConfig.tla) exhaustive TLC model check with a rejected wrong variant + TLC trace validation of recorded configurations, cross maps and choices (XConfig_Trace.tla)",
       "DESIGN.md C07")
 
+check("C08",
+      "TLC checks the twin product of the intended entropy design: two interpreters with different prior histories execute the same "
+      "Seed(s) and the same calls (kinds lib / select / pymoo; rng omitted, caller-made, or spawned after seeding); after seeding the "
+      "results and both global streams coincide, a call given a generator depends only on that generator and leaves Python's and "
+      "NumPy's global streams untouched. The three as-written variants (OS entropy inside pymoo, custom operators on the global "
+      "stream, select() sampling from the global stream) are refuted by TLC. Every catalogued stochastic call (4 sampling utilities, "
+      "7 mating protocols, phenotyping, 4 configuration classes, hill climber, prng wrappers, jitter, 4 selection protocols, 10 "
+      "pymoo-based optimisers) is executed in two fresh interpreters with different hash seeds and histories under four rng "
+      "regimes plus random programs with mid-program re-seeding; TLC validates the recorded touched-source sets and digests against "
+      "the intended design.",
+      "Bit-identical = equal SHA-1 of a canonical serialisation; a source counts as consumed when its state digest changed; "
+      "subset genetic optimisers and Random*Selection given their own generator still use the global stream (known findings).",
+      "TLA+ spec (Entropy.tla) exhaustive TLC model check of a twin product with refuted as-written variants + TLC trace validation of twin executions (Entropy_Trace.tla)",
+      "DESIGN.md C08")
+
 def build():
     checks = []
     for pid in sorted(CHECKS):
